@@ -7,6 +7,7 @@ package dicescript
 import (
 	"bytes"
 	"encoding/json"
+	"sort"
 	"sync"
 	"sync/atomic"
 	"unsafe"
@@ -380,8 +381,15 @@ func (m *ValueMap) Range(f func(key string, value *VMValue) bool) {
 	if verifOn && verifRangeSorted(read.m, f) {
 		return
 	}
-	for k, e := range read.m {
-		v, ok := e.load()
+	// 按键排序后遍历: Go 的 map 遍历顺序是随机的，而字典的打印、keys()/values()/items()、
+	// 序列化都经过这里，同一段脚本在相同种子下应当得到相同的结果
+	keys := make([]string, 0, len(read.m))
+	for k := range read.m {
+		keys = append(keys, k)
+	}
+	sort.Strings(keys)
+	for _, k := range keys {
+		v, ok := read.m[k].load()
 		if !ok {
 			continue
 		}
